@@ -34,6 +34,8 @@ func scenarios(tier string) []c18.Scenario {
 		{Name: "new || comment-shared", Threads: [][]c18.Call{T(c18.CNew), T(c18.CCommentShared)}},
 		{Name: "comment-own || comment-own", Threads: [][]c18.Call{T(c18.CCommentOwn), T(c18.CCommentOwn)}},
 		{Name: "comment-shared || query-open", Threads: [][]c18.Call{T(c18.CCommentShared), T(c18.CQueryOpen)}},
+		{Name: "comment-shared || query-search", Threads: [][]c18.Call{T(c18.CCommentShared), T(c18.CQuerySearch)}},
+		{Name: "new || query-search", Threads: [][]c18.Call{T(c18.CNew), T(c18.CQuerySearch)}},
 		{Name: "comment-shared || query-nil", Threads: [][]c18.Call{T(c18.CCommentShared), T(c18.CQueryNil)}},
 		{Name: "comment-shared || excerpt+prefix", Threads: [][]c18.Call{T(c18.CCommentShared), T(c18.CExcerpt, c18.CPrefix)}},
 		{Name: "comment-shared || snapshot", Threads: [][]c18.Call{T(c18.CCommentShared), T(c18.CSnapshot)}},
